@@ -20,27 +20,37 @@ func init() {
 		for _, n := range []string{"ErrorNum", "ErrorValue", "ErrorEmpty", "ErrorArgCount", "ErrorConst"} {
 			g.def(n, "list N", coqBytes(strConst("pkg/expressions/stdlib/errors.go", n)), "pkg/expressions/stdlib/errors.go")
 		}
-		// kfArrayFor: the local constant MAX_ITERATIONS and the marker returned when it is exceeded
+		// kfArrayFor / kfArrayRange: the local caps and the marker returned when a @for cap is exceeded
 		const rel = "pkg/expressions/stdlib/funcsRange.go"
-		fd := findFunc(rel, "kfArrayFor")
-		maxIter, inf := "", []string{}
-		if fd != nil {
-			ast.Inspect(fd.Body, func(n ast.Node) bool {
-				switch x := n.(type) {
-				case *ast.GenDecl:
-					if x.Tok == token.CONST {
+		localConst := func(fn, name string) string {
+			val := ""
+			if fd := findFunc(rel, fn); fd != nil {
+				ast.Inspect(fd.Body, func(n ast.Node) bool {
+					if x, ok := n.(*ast.GenDecl); ok && x.Tok == token.CONST {
 						for _, s := range x.Specs {
 							vs := s.(*ast.ValueSpec)
 							for i, nm := range vs.Names {
-								if nm.Name == "MAX_ITERATIONS" && i < len(vs.Values) {
+								if nm.Name == name && i < len(vs.Values) {
 									if v, ok := evalInt(vs.Values[i], nil); ok {
-										maxIter = v.ExactString()
+										val = v.ExactString()
 									}
 								}
 							}
 						}
 					}
-				case *ast.ReturnStmt:
+					return true
+				})
+			}
+			if val == "" {
+				fail("%s: %s: constant %s not found (or not a constant integer expression)", rel, fn, name)
+				val = "0"
+			}
+			return val
+		}
+		inf := []string{}
+		if fd := findFunc(rel, "kfArrayFor"); fd != nil {
+			ast.Inspect(fd.Body, func(n ast.Node) bool {
+				if x, ok := n.(*ast.ReturnStmt); ok {
 					for _, r := range x.Results {
 						if s, ok := strLit(r); ok {
 							inf = append(inf, s)
@@ -50,16 +60,14 @@ func init() {
 				return true
 			})
 		}
-		if maxIter == "" {
-			fail("%s: kfArrayFor: constant MAX_ITERATIONS not found", rel)
-			maxIter = "0"
-		}
 		if len(inf) != 1 {
-			fail("%s: kfArrayFor: expected exactly one string literal returned (the iteration-cap marker), found %d", rel, len(inf))
+			fail("%s: kfArrayFor: expected exactly one string literal returned (the cap marker), found %d", rel, len(inf))
 			inf = []string{""}
 		}
-		g.def("MaxIterations", "Z", coqZ(maxIter), rel+": kfArrayFor, const MAX_ITERATIONS")
-		g.def("ForInfMarker", "list N", coqBytes(inf[0]), rel+": kfArrayFor, value returned when the iteration cap is exceeded")
+		g.def("MaxIterations", "Z", coqZ(localConst("kfArrayFor", "MAX_ITERATIONS")), rel+": kfArrayFor, const MAX_ITERATIONS")
+		g.def("ForMaxOutputBytes", "Z", coqZ(localConst("kfArrayFor", "MAX_OUTPUT_BYTES")), rel+": kfArrayFor, const MAX_OUTPUT_BYTES")
+		g.def("ForInfMarker", "list N", coqBytes(inf[0]), rel+": kfArrayFor, value returned when a cap is exceeded")
+		g.def("MaxRangeElements", "Z", coqZ(localConst("kfArrayRange", "maxRangeElements")), rel+": kfArrayRange, const maxRangeElements")
 		gens = append(gens, g)
 	})
 }
